@@ -134,6 +134,8 @@ class Interp:
         self.feas_timeout_ms = feas_timeout_ms
         self._feas_cache = {}
         self._quant_cache = {}
+        self._quant_keep = []
+        self._global_keep = []
         self._globals_cache = {}
         self._resolving = set()
         self._class_cache = {}
@@ -228,10 +230,12 @@ class Interp:
             return True
         key = (tuple(t.get_id() for t in qf), e.get_id(), len(self.axioms))
         if key in self._feas_cache:
-            return self._feas_cache[key]
+            return self._feas_cache[key][0]
         r, _ = self.check(qf + [e])
         ok = r != "unsat"
-        self._feas_cache[key] = ok
+        # the key is made of z3 AST ids: the cache entry keeps those ASTs alive, otherwise z3 reuses the id of a freed
+        # term for a different one and a stale verdict (e.g. "infeasible") is returned for an unrelated query
+        self._feas_cache[key] = (ok, qf, e)
         return ok
 
     def _has_quant(self, t):
@@ -254,6 +258,7 @@ class Interp:
             if z3.is_app(e):
                 todo.extend(e.children())
         self._quant_cache[k] = found
+        self._quant_keep.append(t)  # keep the AST alive: its id is the cache key (ids of freed terms are reused)
         return found
 
     def branch(self, st, cond):
@@ -431,6 +436,21 @@ class Interp:
             return st.alloc(ObjE(v.cls, {k: self.thaw(x, st) for k, x in v.attrs.items()}))
         return v
 
+    def thaw_global(self, v, st):
+        """A module-level (or harness-level) container / object is ONE object per path: the first access in a path
+        materialises it from its initial value, later accesses see the same object (so `byName[k] = x` in one
+        function is visible to the next reader), forks copy it with the store.  Keyed by the identity of the frozen
+        initial value, which the globals cache keeps alive."""
+        if isinstance(v, (FrozenList, FrozenDict, FrozenNd, FrozenObj, frozenset)):
+            k = ("modglobal", id(v))
+            r = st.ghost.get(k)
+            if r is None or r.id not in st.store:
+                r = self.thaw(v, st)
+                st.ghost[k] = r
+                self._global_keep.append(v)
+            return r
+        return self.thaw(v, st)
+
     def lookup(self, name, st):
         fr = st.frame
         if name in fr.vars:
@@ -438,15 +458,15 @@ class Interp:
         if fr.func is not None and fr.func.closure is not None and name in fr.func.closure:
             return fr.func.closure[name]
         if fr.is_harness and name in self.extra_globals:
-            return self.thaw(self.extra_globals[name], st)
+            return self.thaw_global(self.extra_globals[name], st)
         mi = fr.module
         if mi is not None:
             try:
-                return self.thaw(self.resolve_global(mi, name), st)
+                return self.thaw_global(self.resolve_global(mi, name), st)
             except KeyError:
                 pass
         if name in self.extra_globals and fr.func is None:
-            return self.thaw(self.extra_globals[name], st)
+            return self.thaw_global(self.extra_globals[name], st)
         if name in self.builtins:
             return self.builtins[name]
         raise Unsupported("unbound name %s in %s" % (name, fr.func))
@@ -717,7 +737,42 @@ class Interp:
                     continue
                 yield st1, "".join(out)
             else:
-                yield st1, Opaque("fstring")
+                yield st1, self._fstring_symbolic(node, vs)
+
+    def _fstring_symbolic(self, node, vs):
+        """f-string with symbolic int fields (specs as in values.fmt_int_field) -> FmtStr; anything else: uninterpreted"""
+        from .values import FmtStr, fmt_int_field, build_fmtstr
+
+        parts = []
+        for n, v in zip(node.values, vs):
+            if not isinstance(n, ast.FormattedValue):
+                if not isinstance(v, str):
+                    return Opaque("fstring")
+                parts.append(("lit", v))
+                continue
+            spec = ""
+            if n.format_spec is not None:
+                if not all(isinstance(x, ast.Constant) and isinstance(x.value, str) for x in n.format_spec.values):
+                    return Opaque("fstring")
+                spec = "".join(x.value for x in n.format_spec.values)
+            if n.conversion != -1:
+                return Opaque("fstring")
+            v = as_arith(v) if not isinstance(v, str) else v
+            if isinstance(v, str):
+                try:
+                    parts.append(("lit", format(v, spec)))
+                except ValueError:
+                    return Opaque("fstring")
+            elif isinstance(v, FmtStr) and not spec:
+                parts.extend(v.parts)
+            elif (isinstance(v, int) and not isinstance(v, bool)) or (is_z3(v) and z3.is_int(v)):
+                p = fmt_int_field(v, spec)
+                if p is None:
+                    return Opaque("fstring")
+                parts.append(p)
+            else:
+                return Opaque("fstring")
+        return build_fmtstr(parts)
 
     def py_for_str(self, v):
         if isinstance(v, Fraction):
@@ -1236,7 +1291,15 @@ class Interp:
             yield st, st.alloc(ObjE(cls, {"__tuple__": items}))
             return
         obj = st.alloc(ObjE(cls))
+        if self.is_subclass(cls, BuiltinClass("list", list)):
+            # class deriving from the builtin list (e.g. BlockCollection): list payload + the class's own methods
+            st.get(obj).attrs["__list__"] = st.alloc(ListE([]))
         init, where = self.class_lookup(cls, "__init__")
+        if init is None and "__list__" in st.get(obj).attrs and not kwargs and len(args) <= 1:
+            if args:
+                st.get(st.get(obj).attrs["__list__"]).items.extend(self.iterate(args[0], st))
+            yield st, obj
+            return
         if init is None:
             if args or kwargs:
                 raise Unsupported("constructor args without __init__ for %s" % cls.name)
@@ -1378,6 +1441,8 @@ class Interp:
             if self.models.heap_is_obj(self, v):
                 return v != self.models.heap_none(self)
             raise Unsupported("truth value of term of sort %s" % v.sort())
+        if isinstance(v, self.models.Inf):
+            return True
         if isinstance(v, (str, tuple)):
             return len(v) > 0
         if isinstance(v, frozenset):
@@ -1394,6 +1459,8 @@ class Interp:
                 m, _ = self.class_lookup(e.cls, "__bool__")
                 if m is None:
                     m2, _ = self.class_lookup(e.cls, "__len__")
+                    if m2 is None and "__list__" in e.attrs:
+                        return len(st.get(e.attrs["__list__"]).items) > 0
                     if m2 is None:
                         return True
                     outs = list(self.call(m2, [v], {}, st))
